@@ -166,3 +166,19 @@ Lemma rt_order_dependent :
   ob_vals (obs_rt kgen 0 cross_prog 0 cross_sched) = [VDraw 2 1 1 0 5000; VDraw 1 1 1 0 5001] /\
   ob_vals (obs_rt kgen 0 cross_prog 0 cross_sched_ordered) = [VDraw 1 1 1 0 5000; VDraw 2 1 1 0 5001].
 Proof. vm_compute. repeat split; reflexivity. Qed.
+
+(* ---- a routine that yields inf (or a value that is not a number) is never re-scheduled, in both modes ------------------ *)
+(* the child sends at 1/8, yields inf: never resumed again, never ended, its second bundle is never sent; the root goes on *)
+Definition hang_prog : xprog :=
+  mkXP [] [[XPlay 1 CSystem; XYield (1#4); XSend (Some 0) [EMsg 9]; XYield (1#4)];
+           [XYield (1#8); XSend (Some 0) [EMsg 1]; XHang; XSend (Some 0) [EMsg 2]; XYield (1#8)]] 0 0 1 0.
+Definition hang_sched : list (nat * Q) := [wk 0 4; wk 1 4; wk 1 5; wk 0 5; wk 0 6].
+Lemma hang_example :
+  let s := xrt_run kgen 11 hang_prog 4 hang_sched in
+  xs_bad s = false /\ n_q (x_n (xs s)) = [] /\ xnrt_completed kgen true hang_prog 5 = true /\
+  ob_resumes (obs_nrt kgen hang_prog 5) = [rs 0 0 0; rs 1 0 0; rs 1 1 (1#8); rs 0 1 (1#4); rs 0 2 (1#2)] /\
+  map (fun x => snd (snd x)) (ob_bundles (obs_nrt kgen hang_prog 5)) = [[EMsg 1]; [EMsg 9]] /\
+  ob_ends (obs_nrt kgen hang_prog 5) = [(0%nat, 2%nat, false)].
+Proof. vm_compute. repeat split; reflexivity. Qed.
+Lemma hang_prog_ok : sys_only hang_prog.
+Proof. split; [reflexivity|]. repeat constructor; simpl; try lra; try discriminate. Qed.
